@@ -47,6 +47,8 @@ CONFIGS = {
                                  MaxLen=6, MaxSent=5)),
         ("multi/rtcp", conf(Ssrcs="{1, 2, 3}", SeqAlpha="{0, 1, 14, 15}", StartIdx="{15}", StepsFwd="{1, 2}",
                             StepsBack="{1}", WithRtcp="TRUE", MaxLen=5, MaxSent=5)),
+        ("idle/churn", conf(Ssrcs="{1, 2, 3}", SeqAlpha="{15, 0}", StartIdx="{16}", StepsFwd="{1}", StepsBack="{}",
+                            WithTick="TRUE", MaxLen=7, MaxSent=5)),
     ],
     ("C05", "quick"): [
         ("forge/bits4", conf(ForgedSsrcs="{9}", StepsFwd="{1, 2, 7}", StepsBack="{1, 7}", WithRtcp="TRUE",
